@@ -158,10 +158,15 @@ def call(c):
                 fn = BASIS[c['func']]
                 m = c['m']
                 if c['mode'] == 'array':
-                    r = fn(np.array(c['xs'], dtype='d'), m)
+                    xa = np.array(c['xs'], dtype=c.get('xdtype', 'd'))
+                    g = Guard(x=xa)
+                    r = fn(xa, m)
+                    if g.changed():
+                        return {'err': 'ArgumentModified'}
                     out = r
                 else:
-                    conv = {'scalar': float, 'npscalar': np.float64, 'pyint': int}[c['mode']]
+                    conv = {'scalar': float, 'npscalar': np.float64, 'pyint': int, 'npint64': np.int64, 'npint32': np.int32,
+                            'npfloat32': np.float32, 'zerodim': lambda v: np.array(v, dtype='d')}[c['mode']]
                     colsr = [fn(conv(x), m) for x in c['xs']]
                     if not all(col.shape == (m, 1) for col in colsr):
                         return {'err': 'Shape', 'msg': str([col.shape for col in colsr])}
@@ -182,18 +187,19 @@ def call(c):
                 if c.get('ifunc') is not None:
                     kw['inputfunc'] = arr(c['ifunc'])
                 xdt, ydt = c.get('xdtype', 'd'), c.get('ydtype', 'd')
-                if xdt != 'd':
-                    kw = {k: (v.astype(xdt) if v.dtype.kind == 'f' else v) for k, v in kw.items()}
+                kwdt = c.get('kwdtype', xdt if xdt.startswith('f') else 'd')
+                if kwdt != 'd':
+                    kw = {k: (v.astype(kwdt) if v.dtype.kind == 'f' else v) for k, v in kw.items()}
                 x = arr(c['x'], xdt)
                 y = arr(c['y'], ydt)
                 g = Guard(x=x, y=y, **kw)
-                res, yfit = func_fit(x, y, c['ncoeff'], function_name=c['func'], **kw)
+                res, yfit = func_fit(x, y, c['ncoeff'], function_name=c.get('fname', c['func']), **kw)
                 changed = g.changed()
                 # the same call again (fresh result arrays): modifying the first result must not matter
                 r1, f1 = res.copy(), yfit.copy()
                 res += 1
                 yfit += 1
-                res2, yfit2 = func_fit(x, y, c['ncoeff'], function_name=c['func'], **kw)
+                res2, yfit2 = func_fit(x, y, c['ncoeff'], function_name=c.get('fname', c['func']), **kw)
                 repeatable = same(res2, r1) and same(yfit2, f1)
                 res, yfit = r1, f1
                 if not finite(res, yfit):
@@ -202,11 +208,15 @@ def call(c):
                        'res_dtype': str(res.dtype)}
                 if xdt != 'd' or ydt != 'd':
                     kw64 = {k: (v.astype('d') if v.dtype.kind == 'f' else v) for k, v in kw.items()}
-                    rr, ff = func_fit(arr(c['x']), arr(c['y']), c['ncoeff'], function_name=c['func'], **kw64)
+                    rr, ff = func_fit(arr(c['x']), arr(c['y']), c['ncoeff'], function_name=c.get('fname', c['func']), **kw64)
                     out['ref'] = {'res': tolist(rr), 'yfit': tolist(ff)}
                 return out
             if f == 'trace':
                 kw = {'func': c['func'], 'ncoeff': c['ncoeff']}
+                for k in c.get('omit', []):       # keywords left to their defaults
+                    del kw[k]
+                if c.get('maxiter') is not None:
+                    kw['maxiter'] = c['maxiter']
                 if c.get('ivar') is not None:
                     kw['invvar'] = arr(c['ivar'])
                 if c.get('inmask') is not None:
@@ -217,7 +227,7 @@ def call(c):
                     kw['xmax'] = c['xmax']
                 if c.get('jump') is not None:
                     kw['xjumplo'], kw['xjumphi'], kw['xjumpval'] = c['jump']
-                xpos = arr(c['xpos'])
+                xpos = arr(c['xpos'], c.get('xdtype', 'd'))
                 ypos = arr(c['ypos'], c.get('ydtype', 'd'))
                 g = Guard(xpos=xpos, ypos=ypos, **{k: v for k, v in kw.items() if isinstance(v, np.ndarray)})
                 tset = xy2traceset(xpos, ypos, **kw)
@@ -226,7 +236,9 @@ def call(c):
                 changed = g.changed()
                 out = {'coeff': tolist(tset.coeff), 'yfit': tolist(tset.yfit), 'xy_x': tolist(x1), 'xy_y': tolist(y1),
                        'grid_x': tolist(x2), 'grid_y': tolist(y2), 'xmin': float(tset.xmin), 'xmax': float(tset.xmax),
-                       'nx': int(tset.nx), 'outmask_all': bool(np.all(tset.outmask)), 'args_changed': changed}
+                       'nx': int(tset.nx), 'outmask_all': bool(np.all(tset.outmask)), 'args_changed': changed,
+                       'outmask': [[bool(v) for v in row] for row in np.asarray(tset.outmask)],
+                       'func': str(tset.func), 'ncoeff': int(tset.ncoeff)}
                 if not finite(tset.coeff, tset.yfit, y1, y2, x2):
                     return {'err': 'nonfinite'}
                 if c.get('jump') is not None:
@@ -236,7 +248,7 @@ def call(c):
             if f == 'eval':
                 rec = make_fits_rec(c)
                 tset = TraceSet(rec)
-                xpos = arr(c['xpos'])
+                xpos = arr(c['xpos'], c.get('xdtype', 'd'))
                 g = Guard(xpos=xpos)
                 x1, y1 = traceset2xy(tset, xpos, ignore_jump=bool(c.get('ignore_jump')))
                 if not finite(x1, y1):
